@@ -98,6 +98,9 @@ class Report(object):
                          (self.pid, kf.get("what", o["fact"]), o["rule"], o["key"], o["site"], more))
         replay_paths = []
         if viols and not self.broken:
+            global REPLAY_DIR
+            if os.environ.get("VERIF_NO_EVIDENCE"):
+                REPLAY_DIR = os.path.join(os.environ.get("VERIF_SCRATCH", "/var/tmp/verif-scratch"), "replays")
             os.makedirs(REPLAY_DIR, exist_ok=True)
             for o in viols:
                 h = hashlib.sha1((o["rule"] + "|" + o["key"]).encode()).hexdigest()[:10]
@@ -164,12 +167,13 @@ class Report(object):
         ev = dict(property_id=self.pid, tier=self.tier, seed=int(os.environ.get("VERIF_SEED", "0") or 0),
                   level=self.level, coverage=cov, assumptions=self.assumptions,
                   wall_s=round(time.time() - self.t0, 3), violations=len(viols))
-        os.makedirs(EVIDENCE_DIR, exist_ok=True)
-        p = os.path.join(EVIDENCE_DIR, "%s.json" % self.pid)
-        tmp = p + ".tmp%d" % os.getpid()
-        with open(tmp, "w") as f:
-            json.dump(ev, f, indent=1, sort_keys=True, default=str)
-        os.replace(tmp, p)
+        if not os.environ.get("VERIF_NO_EVIDENCE"):
+            os.makedirs(EVIDENCE_DIR, exist_ok=True)
+            p = os.path.join(EVIDENCE_DIR, "%s.json" % self.pid)
+            tmp = p + ".tmp%d" % os.getpid()
+            with open(tmp, "w") as f:
+                json.dump(ev, f, indent=1, sort_keys=True, default=str)
+            os.replace(tmp, p)
         for ln in lines:
             print(ln)
         print("%s tier=%s obligations=%d discharged=%d undecided=%d known=%d violations=%d wall=%.1fs" %
